@@ -124,11 +124,11 @@ Definition s_vscale_l (self_ : (T A)) (vector_ : (list (T A))) : res (list (T A)
 
 (* src/vector/arithmetic.rs : impl < T : Clone + Number > Div < T > for Vector < T > :: fn div *)
 Definition s_vdiv (self_ : (list (T A))) (scalar_ : (T A)) : res (list (T A)) :=
-  let* inv_ := div (@one A) scalar_ in
   let result_ := (@nil (T A)) in
   for_ 0 (length self_) (fun i_ (result_ : (list (T A))) =>
-      let* x2 := rd self_ i_ in
-      let result_ := (result_ ++ [(mul x2 inv_)]) in
+      let* x1 := rd self_ i_ in
+      let* q2 := div x1 scalar_ in
+      let result_ := (result_ ++ [q2]) in
       Ok result_) result_.
 
 (* src/vector/arithmetic.rs : impl < T : Clone + Number > AddAssign for Vector < T > :: fn add_assign *)
